@@ -408,7 +408,33 @@ func byteTableCmd(job []byte, out *Out) error {
 			ai[i] = 1
 		}
 	}
-	out.Emit(R{"ev": "bytes", "rows": rows, "back": back, "arr": ai, "arrbytes": []int{0x80, 0x01, 0xA5, 0x00, 0xFF}})
+	// a caller owns the slice it gets back: append to it and write into it, then expand everything again
+	for b := 0; b < 256; b++ {
+		r := randomness.B2bit(byte(b))
+		r = append(r, true, false, true)
+		for i := range r {
+			r[i] = !r[i]
+		}
+	}
+	rows2 := make([][]int, 256)
+	for b := 0; b < 256; b++ {
+		bs := randomness.B2bit(byte(b))
+		r := make([]int, len(bs))
+		for i, v := range bs {
+			if v {
+				r[i] = 1
+			}
+		}
+		rows2[b] = r
+	}
+	arr2 := randomness.B2bitArr([]byte{0x80, 0x01, 0xA5, 0x00, 0xFF})
+	ai2 := make([]int, len(arr2))
+	for i, v := range arr2 {
+		if v {
+			ai2[i] = 1
+		}
+	}
+	out.Emit(R{"ev": "bytes", "rows": rows, "back": back, "arr": ai, "arrbytes": []int{0x80, 0x01, 0xA5, 0x00, 0xFF}, "rows2": rows2, "arr2": ai2})
 	return nil
 }
 
